@@ -330,7 +330,7 @@ class Evolver:
             # productions that once exposed a defect (kept as a standing floor)
             "message-no-typename", "rust-keyword-name", "base-regexp", "empty-struct-property", "request-no-typename",
             "matrix", "same-name-different-nullness", "shared-registration-method", "diamond",
-            "message-regopts-no-params", "explicit-closed-enum", "and-registration-options", "deep-mixin", "confusing-message-names", "exotic-enum-values", "message-map-keys", "marked-everything", "alias-shapes", "declares-response-error", "method-mentions-request"]
+            "message-regopts-no-params", "explicit-closed-enum", "and-registration-options", "deep-mixin", "confusing-message-names", "exotic-enum-values", "message-map-keys", "marked-everything", "alias-shapes", "declares-response-error", "method-mentions-request", "literal-name-collision"]
     RUST_AND_PYTHON_KEYWORDS = ["in", "for", "as", "if", "else", "while", "continue", "break", "return", "async", "await", "try", "yield"]
 
     MATRIX_PRODUCTIONS = ["base", "ref-struct", "ref-enum", "ref-alias", "array", "map", "tuple", "ornull-first", "ornull-last", "literal",
@@ -480,6 +480,31 @@ class Evolver:
         if focus == "message-regopts-no-params":
             self.e_new_message(is_request=True, registration="own", params=False)
             return self.e_new_message(is_request=False, registration="own", params=False)
+        if focus == "literal-name-collision":
+            # owner and property names concatenate to the same words: VfAb.cdEf / VfAbCd.ef (plain, array element, union member)
+            def lit(pname: str, base_: str) -> dict:
+                return {"kind": "literal", "value": {"properties": [{"name": pname, "type": {"kind": "base", "name": base_}}]}}
+            w1, w2, w3 = self.pick(WORDS_U), self.pick(WORDS_U), self.pick(WORDS_U)
+            stem = self.fresh_type_name("Vf")
+            a, b = stem, stem + w1
+            self.taken_types.add(b)
+            wrap = self.pick(["plain", "array", "ornull"])
+            def shaped(t: dict) -> dict:
+                if wrap == "array":
+                    return {"kind": "array", "element": t}
+                if wrap == "ornull":
+                    return {"kind": "or", "items": [t, {"kind": "base", "name": "null"}]}
+                return t
+            pa = {"name": w1[0].lower() + w1[1:] + w2 + w3, "type": shaped(lit("vfFirst", "string"))}
+            pb = {"name": w2[0].lower() + w2[1:] + w3, "type": shaped(lit("vfSecond", "integer"))}
+            if self.draw(st.booleans()):
+                pb["optional"] = True
+            self.doc["structures"].append({"name": a, "properties": [pa]})
+            self.doc["structures"].append({"name": b, "properties": [pb]})
+            self.new_structs += [a, b]
+            self.edits.append({"edit": "E1-new-structure", "name": a, "properties": [pa["name"]]})
+            self.edits.append({"edit": "E1-new-structure", "name": b, "properties": [pb["name"]]})
+            return
         if focus == "method-mentions-request":
             # messages without typeName whose method carries the words the plugins append as suffixes
             for word, is_req in (("requestAlpha", True), ("alphaRequestBeta", True), ("notificationGamma", False), ("requestDelta", False), ("notificationOmega", True)):
